@@ -37,7 +37,7 @@ Definition tinv (s : shared) (t : tid) (th : thread) : Prop :=
 
 Definition gwit (s : shared) (ts : tid -> thread) : Prop := wrest s <> [] -> exists t m, at_ (ts t) = SWrite m (wrest s).
 Definition gdata (s : shared) : Prop :=
-  produced s = recvd s ++ q s /\
+  produced s = map snd (recvd s) ++ q s /\
   (c_kind c = KEcho -> produced s = map snd (stream s)) /\
   (c_kind c = KDevice -> allread s ++ devbuf s ++ wrest s = concat (map enc (map snd (stream s)))) /\
   (c_kind c = KDevice -> exists toks, feed Idle (allread s) = (tok s, toks) /\ sequence (map dec toks) = Ok (produced s)) /\
@@ -276,7 +276,7 @@ Proof.
       mine; fin.
     + eapply gwit_keep; eauto. intros; congruence.
     + destruct Hd as (D1 & D2 & D3 & D4 & D5 & D6). unfold gdata, with_q. cbn [produced recvd q stream allread devbuf wrest tok].
-      split; [rewrite D1, Eq; now rewrite <- app_assoc|]. auto.
+      split; [rewrite D1, Eq, map_app; cbn [map snd]; now rewrite <- app_assoc|]. auto.
   - (* RRel1 *)
     injection E as <- <-. assert (Hi : owner c s LIn = Some t) by (apply M1; reflexivity).
     destruct (M11 eq_refl) as (o & rr & Hp & Ho).
@@ -326,7 +326,7 @@ Proof.
       mine; fin.
     + eapply gwit_keep; eauto. intros; congruence.
     + destruct Hd as (D1 & D2 & D3 & D4 & D5 & D6). unfold gdata, with_q. cbn [produced recvd q stream allread devbuf wrest tok].
-      split; [rewrite D1, Eq; now rewrite <- app_assoc|]. auto.
+      split; [rewrite D1, Eq, map_app; cbn [map snd]; now rewrite <- app_assoc|]. auto.
   - (* LRel *)
     injection E as <- <-. assert (Hi : owner c s LIn = Some t) by (apply M1; reflexivity).
     destruct (M11 eq_refl) as (o & rr & Hp & Ho).
@@ -378,7 +378,7 @@ Qed.
 
 (* EchoPort: what was taken out plus what is queued is exactly what was put in, in that order *)
 Theorem echo_fifo sched : c_kind c = KEcho ->
-  let s := fst (crun c sched (cinit progs)) in map snd (stream s) = recvd s ++ q s.
+  let s := fst (crun c sched (cinit progs)) in map snd (stream s) = map snd (recvd s) ++ q s.
 Proof.
   intros Hk. pose proof (run_inv sched _ init_inv) as H. destruct (crun c sched (cinit progs)) as [s ts]. destruct H as (_ & _ & D1 & D2 & _).
   cbn [fst]. rewrite <- (D2 Hk). exact D1.
@@ -480,11 +480,11 @@ Qed.
    senders obtained the port - no message is split, merged with another, duplicated or reordered, under any schedule *)
 Theorem device_intact sched : c_kind c = KDevice ->
   let s := fst (crun c sched (cinit progs)) in
-  recvd s ++ q s = complete_prefix (map snd (stream s)) (length (allread s)) /\ exists rest, map snd (stream s) = (recvd s ++ q s) ++ rest.
+  map snd (recvd s) ++ q s = complete_prefix (map snd (stream s)) (length (allread s)) /\ exists rest, map snd (stream s) = (map snd (recvd s) ++ q s) ++ rest.
 Proof.
   intros Hk. pose proof (run_inv c Hlock sched _ (init_inv c progs Hvalid)) as H.
   destruct (crun c sched (cinit progs)) as [s ts]. destruct H as (_ & _ & D1 & _ & D3 & D4 & D5 & _). cbn [fst].
-  assert (E : recvd s ++ q s = complete_prefix (map snd (stream s)) (length (allread s))).
+  assert (E : map snd (recvd s) ++ q s = complete_prefix (map snd (stream s)) (length (allread s))).
   { destruct (D4 Hk) as (toks & Hf & Hs). rewrite <- D1.
     assert (Ha : allread s = firstn (length (allread s)) (concat (map enc (map snd (stream s))))).
     { rewrite <- (D3 Hk), firstn_app, firstn_all, Nat.sub_diag. cbn [firstn]. now rewrite app_nil_r. }
@@ -495,7 +495,7 @@ Qed.
 (* once the senders are done and the device has been read empty, what was received plus what is queued is everything that was sent *)
 Theorem device_all_delivered sched : c_kind c = KDevice ->
   let '(s, ts) := crun c sched (cinit progs) in
-  (forall t m r, at_ (ts t) <> SWrite m r) -> devbuf s = [] -> map snd (stream s) = recvd s ++ q s.
+  (forall t m r, at_ (ts t) <> SWrite m r) -> devbuf s = [] -> map snd (stream s) = map snd (recvd s) ++ q s.
 Proof.
   intros Hk. pose proof (device_intact sched Hk) as HI. pose proof (run_inv c Hlock sched _ (init_inv c progs Hvalid)) as H.
   destruct (crun c sched (cinit progs)) as [s ts]. cbn [fst] in HI. destruct H as (_ & Hw & _ & _ & D3 & _). intros Hnw Hdb.
@@ -509,3 +509,139 @@ Definition unlocked : conf := {| c_locking := false; c_kind := KEcho; c_same_loc
 Definition race_progs (t : tid) : list op := match t with 0%nat => [Send (NoteOn 0 1 2)] | 1%nat => [Recv false] | 2%nat => [Recv false] | _ => [] end.
 Example unlocked_refuted : at_ (snd (crun unlocked [0; 0; 0; 1; 1; 2; 2; 1; 2]%nat (cinit race_progs)) 2%nat) = Raised IndexError.
 Proof. vm_compute. reflexivity. Qed.
+
+(* ================= what the callers got = what was popped, thread by thread, in order ================= *)
+Definition result_msgs (r : result) : list msg := match r with RGot (Some m) => [m] | RList l => l | _ => [] end.
+Definition acc_of (th : thread) : list msg := match prog th with IterPending acc :: _ => acc | _ => [] end.
+Definition inflight (p : pc) : list msg := match p with RRel1 (Some m) => [m] | LRel (Some m) _ => [m] | _ => [] end.
+(* everything the calls of this thread have handed (or are about to hand) to their caller, in order *)
+Definition got (th : thread) : list msg := flat_map result_msgs (results th) ++ acc_of th ++ inflight (at_ th).
+Definition clean (p : list op) : Prop := forall acc, In (IterPending acc) p -> acc = [].
+
+Lemma acc_of_clean th : clean (prog th) -> acc_of th = [].
+Proof. unfold acc_of, clean. destruct (prog th) as [|[m|b|acc] r]; try reflexivity. intros H. apply H. left. reflexivity. Qed.
+Lemma clean_tl p : clean p -> clean (tl p).
+Proof. intros H acc Hi. apply H. destruct p; [exact Hi|right; exact Hi]. Qed.
+
+Section Received.
+Variable c : conf.
+Hypothesis Hlock : c_locking c = true.
+
+Definition Rinv (cf : cfg) : Prop := let '(s, ts) := cf in forall t, got (ts t) = mine t (recvd s) /\ clean (tl (prog (ts t))) /\ (forall m, at_ (ts t) <> LRel (Some m) true).
+
+Lemma flat_map_app' {A B} (f : A -> list B) l1 l2 : flat_map f (l1 ++ l2) = flat_map f l1 ++ flat_map f l2.
+Proof. induction l1 as [|x l1 IH]; cbn; [reflexivity|]. now rewrite IH, app_assoc. Qed.
+
+Lemma step_recv cf t : Inv c cf -> Rinv cf -> Rinv (cstep c cf t).
+Proof.
+  destruct cf as [s ts]. intros (Hall & _ & _) HR. unfold cstep.
+  destruct (step_thread c s t (ts t)) as [[s' th']|] eqn:E; [|exact HR].
+  pose proof (Hall t) as (M1 & M2 & M3 & M4 & M5 & M6 & M7 & M8 & M9 & M10 & M11). pose proof (HR t) as (Rt0 & Ct & Cs). pose proof Rt0 as Rt. unfold got in Rt.
+  unfold step_thread in E.
+  change (forall u, got (upd ts t th' u) = mine u (recvd s') /\ clean (tl (prog (upd ts t th' u))) /\ (forall m, at_ (upd ts t th' u) <> LRel (Some m) true)).
+  (* a step that pops nothing and only moves the program counter within the same operation *)
+  assert (Hsame : forall th2, recvd s' = recvd s -> got th2 = got (ts t) -> prog th2 = prog (ts t) -> (forall m, at_ th2 <> LRel (Some m) true) ->
+                  forall u, got (upd ts t th2 u) = mine u (recvd s') /\ clean (tl (prog (upd ts t th2 u))) /\ (forall m, at_ (upd ts t th2 u) <> LRel (Some m) true)).
+  { intros th2 Hr Hg Hp Ha u. rewrite Hr. destruct (Nat.eq_dec u t) as [->|Hne]; [rewrite upd_same, Hg, Hp; split; [exact Rt0|split; [exact Ct|exact Ha]]|rewrite upd_other by exact Hne; apply HR]. }
+  assert (Hgot_pc : forall p, inflight p = [] -> inflight (at_ (ts t)) = [] -> got (set_pc (ts t) p) = got (ts t)).
+  { intros p Hp Hq. unfold got, acc_of. cbn [set_pc results prog at_]. now rewrite Hp, Hq. }
+  destruct (at_ (ts t)) eqn:Epc.
+  - destruct (prog (ts t)) as [|o r] eqn:Ep; [discriminate|]. destruct o as [m|b|acc].
+    + destruct (can_acquire c s LOut t); [|intros; discriminate]. destruct (c_kind c) eqn:Ek; injection E as <- <-.
+      * apply Hsame; [apply (acq_fields c Hlock)|apply Hgot_pc; [reflexivity|reflexivity]|first [reflexivity|exact Ep]|intros; discriminate].
+      * apply Hsame; [cbn [recvd]; apply (acq_fields c Hlock)|apply Hgot_pc; [reflexivity|reflexivity]|first [reflexivity|exact Ep]|intros; discriminate].
+    + destruct (can_acquire c s LIn t); [|intros; discriminate]. injection E as <- <-.
+      apply Hsame; [apply (acq_fields c Hlock)|apply Hgot_pc; [reflexivity|reflexivity]|first [reflexivity|exact Ep]|intros; discriminate].
+    + destruct (can_acquire c s LIn t); [|intros; discriminate]. injection E as <- <-.
+      apply Hsame; [apply (acq_fields c Hlock)|apply Hgot_pc; [reflexivity|reflexivity]|first [reflexivity|exact Ep]|intros; discriminate].
+  - injection E as <- <-. apply Hsame; [reflexivity|apply Hgot_pc; [reflexivity|reflexivity]|first [reflexivity|exact Ep]|intros; discriminate].
+  - destruct rest as [|b rest']; injection E as <- <-.
+    + apply Hsame; [reflexivity|apply Hgot_pc; reflexivity|reflexivity|intros; discriminate].
+    + apply Hsame; [reflexivity|apply Hgot_pc; [destruct rest'; reflexivity|reflexivity]|reflexivity|destruct rest'; intros; discriminate].
+  - (* SRel: the send operation ends *)
+    injection E as <- <-. destruct (M9 eq_refl) as (m & r & Hp). intros u. destruct (rel_fields c Hlock s LOut) as (_ & _ & _ & _ & _ & Fr & _). rewrite Fr.
+    destruct (Nat.eq_dec u t) as [->|Hne]; [rewrite upd_same|rewrite upd_other by exact Hne; apply HR].
+    rewrite Hp in Ct. cbn [tl] in Ct.
+    assert (Ha' : acc_of (finish_send (ts t)) = []) by (apply acc_of_clean; unfold finish_send; cbn [prog]; rewrite Hp; exact Ct).
+    split; [|split].
+    + unfold got. rewrite Ha'. unfold finish_send. cbn [results at_ inflight]. rewrite flat_map_app'. cbn [flat_map result_msgs app].
+      unfold acc_of in Rt. rewrite Hp in Rt. cbn [inflight] in Rt. rewrite <- Rt. now rewrite !app_nil_r.
+    + unfold finish_send. cbn [prog]. rewrite Hp. cbn [tl]. apply clean_tl, Ct.
+    + intros; discriminate.
+  - injection E as <- <-. apply Hsame; [reflexivity|apply Hgot_pc; [destruct (q s); reflexivity|reflexivity]|reflexivity|destruct (q s); intros; discriminate].
+  - (* RPop1 *)
+    destruct (q s) as [|m r] eqn:Eq; injection E as <- <-.
+    + apply Hsame; [reflexivity|apply Hgot_pc; [reflexivity|reflexivity]|first [reflexivity|exact Ep]|intros; discriminate].
+    + intros u. unfold with_q. cbn [recvd]. rewrite mine_app. cbn [fst snd].
+      destruct (Nat.eq_dec u t) as [->|Hne]; [rewrite upd_same, Nat.eqb_refl|rewrite upd_other by exact Hne; replace (Nat.eqb t u) with false by (symmetry; apply Nat.eqb_neq; congruence); rewrite app_nil_r; apply HR].
+      split; [|split; [exact Ct|intros; discriminate]]. unfold got. cbn [set_pc results prog at_ inflight]. unfold acc_of in *. cbn [set_pc prog]. cbn [inflight] in Rt. rewrite app_nil_r in Rt.
+      rewrite <- Rt. now rewrite <- app_assoc.
+  - (* RRel1 *)
+    injection E as <- <-. destruct (M11 eq_refl) as (o & rr & Hp & Ho). intros u. destruct (rel_fields c Hlock s LIn) as (_ & _ & _ & _ & _ & Fr & _). rewrite Fr.
+    destruct (Nat.eq_dec u t) as [->|Hne]; [rewrite upd_same|rewrite upd_other by exact Hne; apply HR].
+    rewrite Hp in Ct. cbn [tl] in Ct. destruct r as [m|].
+    + unfold finish_recv. rewrite Hp. destruct o as [m0|b|acc]; [discriminate| |].
+      * split; [|split; [cbn [prog]; apply clean_tl, Ct|intros; discriminate]].
+        unfold got. cbn [results at_ inflight]. rewrite (acc_of_clean {| prog := rr; at_ := AtStart; results := results (ts t) ++ [RGot (Some m)] |} Ct).
+        rewrite flat_map_app'. cbn [flat_map result_msgs app]. unfold acc_of in Rt. rewrite Hp in Rt. cbn [inflight app] in Rt. rewrite <- Rt. now rewrite !app_nil_r.
+      * split; [|split; [cbn [prog tl]; exact Ct|intros; discriminate]].
+        unfold got, acc_of. cbn [results at_ inflight prog]. unfold acc_of in Rt. rewrite Hp in Rt. cbn [inflight] in Rt. rewrite <- Rt. rewrite ?app_nil_r, <- ?app_assoc. reflexivity.
+    + split; [|split; [cbn [set_pc prog]; rewrite Hp; exact Ct|intros; discriminate]].
+      unfold got, acc_of. cbn [set_pc results at_ inflight prog]. unfold acc_of in Rt. cbn [inflight] in Rt. exact Rt.
+  - destruct (can_acquire c s LIn t); [|discriminate]. injection E as <- <-.
+    apply Hsame; [apply (acq_fields c Hlock)|apply Hgot_pc; [destruct (c_kind c); reflexivity|reflexivity]|reflexivity|destruct (c_kind c); intros; discriminate].
+  - destruct (feed (tok s) (devbuf s)) as [tok' toks]. destruct (sequence (map dec toks)); injection E as <- <-;
+    (apply Hsame; [reflexivity|apply Hgot_pc; reflexivity|reflexivity|intros; discriminate]).
+  - injection E as <- <-. apply Hsame; [reflexivity|apply Hgot_pc; [destruct (q s); reflexivity|reflexivity]|reflexivity|destruct (q s); intros; discriminate].
+  - destruct (q s) as [|m r] eqn:Eq; injection E as <- <-.
+    + apply Hsame; [reflexivity|apply Hgot_pc; reflexivity|reflexivity|intros; discriminate].
+    + intros u. unfold with_q. cbn [recvd]. rewrite mine_app. cbn [fst snd].
+      destruct (Nat.eq_dec u t) as [->|Hne]; [rewrite upd_same, Nat.eqb_refl|rewrite upd_other by exact Hne; replace (Nat.eqb t u) with false by (symmetry; apply Nat.eqb_neq; congruence); rewrite app_nil_r; apply HR].
+      split; [|split; [exact Ct|intros; discriminate]]. unfold got. cbn [set_pc results prog at_ inflight]. unfold acc_of in *. cbn [set_pc prog]. cbn [inflight] in Rt. rewrite app_nil_r in Rt.
+      rewrite <- Rt. now rewrite <- app_assoc.
+  - injection E as <- <-. destruct (M11 eq_refl) as (o & rr & Hp & Ho). intros u. destruct (rel_fields c Hlock s LIn) as (_ & _ & _ & _ & _ & Fr & _). rewrite Fr.
+    destruct (Nat.eq_dec u t) as [->|Hne]; [rewrite upd_same|rewrite upd_other by exact Hne; apply HR].
+    rewrite Hp in Ct. cbn [tl] in Ct. destruct slp.
+    + destruct r as [m|]; [exfalso; eapply Cs; reflexivity|].
+      split; [|split; [cbn [set_pc prog]; rewrite Hp; exact Ct|intros; discriminate]].
+      unfold got, acc_of. cbn [set_pc results at_ inflight prog]. unfold acc_of in Rt. cbn [inflight] in Rt. exact Rt.
+    + unfold finish_recv. rewrite Hp. destruct o as [m0|b|acc]; [discriminate| |].
+      * split; [|split; [cbn [prog]; apply clean_tl, Ct|intros; discriminate]].
+        unfold got. cbn [results at_ inflight]. rewrite (acc_of_clean {| prog := rr; at_ := AtStart; results := results (ts t) ++ [RGot r] |} Ct).
+        rewrite flat_map_app'. cbn [flat_map app]. unfold acc_of in Rt. rewrite Hp in Rt. cbn [app] in Rt. rewrite <- Rt. destruct r; cbn [result_msgs inflight]; now rewrite !app_nil_r.
+      * destruct r as [m|].
+        -- split; [|split; [cbn [prog tl]; exact Ct|intros; discriminate]].
+           unfold got, acc_of. cbn [results at_ inflight prog]. unfold acc_of in Rt. rewrite Hp in Rt. cbn [inflight] in Rt. rewrite <- Rt. rewrite ?app_nil_r, <- ?app_assoc. reflexivity.
+        -- split; [|split; [cbn [prog]; apply clean_tl, Ct|intros; discriminate]].
+           unfold got. cbn [results at_ inflight]. rewrite (acc_of_clean {| prog := rr; at_ := AtStart; results := results (ts t) ++ [RList acc] |} Ct).
+           rewrite flat_map_app'. cbn [flat_map result_msgs app]. unfold acc_of in Rt. rewrite Hp in Rt. cbn [inflight] in Rt. rewrite <- Rt. now rewrite !app_nil_r.
+  - injection E as <- <-. apply Hsame; [reflexivity|apply Hgot_pc; reflexivity|reflexivity|intros; discriminate].
+  - discriminate.
+Qed.
+End Received.
+
+Section ReceivedFinal.
+Variable c : conf.
+Hypothesis Hlock : c_locking c = true.
+Variable progs : tid -> list op.
+Hypothesis Hvalid : forall t m, In (Send m) (progs t) -> valid m = true.
+Hypothesis Hclean : forall t, clean (progs t).
+
+Lemma init_recv : Rinv (cinit progs).
+Proof.
+  intros t. cbn [cinit]. split; [|split].
+  - unfold got. cbn [results at_ inflight flat_map app]. rewrite (acc_of_clean {| prog := progs t; at_ := AtStart; results := [] |} (Hclean t)). reflexivity.
+  - cbn [prog]. apply clean_tl, Hclean.
+  - intros; discriminate.
+Qed.
+Lemma run_recv : forall sched cf, Inv c cf -> Rinv cf -> Rinv (crun c sched cf).
+Proof.
+  induction sched as [|t r IH]; intros cf H HR; cbn [crun fold_left]; [exact HR|]. apply IH; [apply step_inv; assumption|apply step_recv; assumption].
+Qed.
+(* every message popped from the port reaches exactly one caller: what thread t's receive / poll / iter_pending calls returned (or are
+   returning), in order, is exactly what thread t popped, in order *)
+Theorem callers_get_what_was_popped sched t : let '(s, ts) := crun c sched (cinit progs) in got (ts t) = mine t (recvd s).
+Proof.
+  pose proof (run_recv sched _ (init_inv c progs Hvalid) init_recv) as H. destruct (crun c sched (cinit progs)) as [s ts]. apply H.
+Qed.
+End ReceivedFinal.
